@@ -1564,3 +1564,273 @@ func verifyFirstEntryHasT(p *Program) (bool, string) {
 	}
 	return true, "S entries without @t are created only after an earlier entry (timeline generators)"
 }
+
+// ---------------------------------------------------------------- class G: make with a negative size
+
+// classG: make([]T, len, cap) panics when len or cap is negative. A request-controlled size must be
+// proven non-negative.
+func (e *e3) classG(rule string, fns []*ssa.Function) {
+	for _, fn := range fns {
+		for _, b := range fn.Blocks {
+			for _, in := range b.Instrs {
+				ms, ok := in.(*ssa.MakeSlice)
+				if !ok {
+					continue
+				}
+				for i, v := range []ssa.Value{ms.Len, ms.Cap} {
+					if v == nil {
+						continue
+					}
+					if _, isConst := v.(*ssa.Const); isConst {
+						continue
+					}
+					what := [...]string{"len", "cap"}[i]
+					construct := "make:" + what + ":" + roleKey(v)
+					pos := e.p.pos(instrPos(ms))
+					if !e.g.isTainted(v) {
+						e.r.OutOfScope(rule, shortFn(fn), construct, pos, "size does not depend on request data")
+						continue
+					}
+					if isUnsigned(stripConv(v).Type()) {
+						e.r.Discharge(rule, shortFn(fn), construct, pos, "unsigned size")
+						continue
+					}
+					if guardedDifference(v, b) {
+						e.r.Discharge(rule, shortFn(fn), construct, pos, "difference a-b computed under the guard a > b")
+						continue
+					}
+					rg := e.rg.rangeAt(v, b, 0)
+					e.r.Decide(rg.lo >= 0, rule, shortFn(fn), construct, pos, fmt.Sprintf("size in %s (%s)", rg, rg.why),
+						fmt.Sprintf("make with a request-controlled %s that may be negative (%s): runtime panic 'makeslice: %s out of range' [taint: %s]", what, rg, what, strings.Join(e.g.taintTrail(v, 6), " <- ")),
+						e.p.callPath(fn))
+				}
+			}
+		}
+	}
+}
+
+// ---------------------------------------------------------------- class D3 / C2: library results and library panics
+
+// libNilResults: library functions whose pointer result is nil for some inputs (documented behaviour).
+var libNilResults = map[string]string{
+	"(*github.com/beevik/etree.Document).Root":         "nil for a document without a root element (e.g. a body that is not XML)",
+	"(*github.com/beevik/etree.Element).SelectElement": "nil when no child has the tag",
+	"(*github.com/beevik/etree.Element).FindElement":   "nil when the path matches nothing",
+	"(*github.com/beevik/etree.Element).SelectAttr":    "nil when the attribute is absent",
+	"(*github.com/beevik/etree.Element).Parent":        "nil for the root",
+}
+
+// libPanics: library functions that panic on bad arguments instead of returning an error.
+var libPanics = map[string]string{
+	"net/http/httptest.NewRequest": "panics on a target that is not a valid request URI",
+	"regexp.MustCompile":           "panics on an invalid expression",
+	"text/template.Must":           "panics on a template error",
+	"html/template.Must":           "panics on a template error",
+}
+
+// classLib: (D3) a request-dependent result of a library function that may be nil is dereferenced only
+// under a non-nil test; (C2) a library function that panics on bad input gets no request-controlled argument.
+func (e *e3) classLib(ruleNil, rulePanic string, fns []*ssa.Function) {
+	na := newNilAnalysis(e)
+	for _, fn := range fns {
+		for _, b := range fn.Blocks {
+			for _, in := range b.Instrs {
+				c, ok := in.(*ssa.Call)
+				if !ok || c.Call.StaticCallee() == nil {
+					continue
+				}
+				name := c.Call.StaticCallee().String()
+				if why, ok := libPanics[name]; ok {
+					tainted := false
+					for _, a := range c.Call.Args {
+						if e.g.isTainted(a) {
+							tainted = true
+						}
+					}
+					construct := "call:" + name
+					if !tainted {
+						e.r.OutOfScope(rulePanic, shortFn(fn), construct, e.p.pos(c.Pos()), "no argument depends on request data")
+					} else if name == "net/http/httptest.NewRequest" && len(c.Call.Args) >= 2 && requestTargetValidated(c.Call.Args[1], b) {
+						e.r.Discharge(rulePanic, shortFn(fn), construct, e.p.pos(c.Pos()), "the target passed url.ParseRequestURI and contains no space on every path to the call")
+					} else if reason, isEx := reviewedException(rulePanic, shortFn(fn), construct); isEx {
+						e.r.Exception(rulePanic, shortFn(fn), construct, e.p.pos(c.Pos()), reason)
+					} else {
+						e.r.Violate(rulePanic, shortFn(fn), construct, e.p.pos(c.Pos()), name+" "+why+", and an argument is request-controlled", e.p.callPath(fn))
+					}
+					continue
+				}
+				why, ok := libNilResults[name]
+				if !ok || c.Referrers() == nil {
+					continue
+				}
+				// every dereference (field access, method call with the value as receiver) of the result
+				for _, ref := range *c.Referrers() {
+					var at ssa.Instruction
+					switch x := ref.(type) {
+					case *ssa.FieldAddr:
+						if x.X == ssa.Value(c) {
+							at = x
+						}
+					case *ssa.UnOp:
+						if x.Op == token.MUL && x.X == ssa.Value(c) {
+							at = x
+						}
+					case *ssa.Call:
+						if len(x.Call.Args) > 0 && x.Call.Args[0] == ssa.Value(c) && x.Call.StaticCallee() != nil && x.Call.StaticCallee().Signature.Recv() != nil {
+							// a method call on a nil *etree.Element dereferences the receiver inside the library
+							at = x
+						}
+					}
+					if at == nil {
+						// handed to a repository function: the dereferences of the parameter there
+						if call, isCall := ref.(*ssa.Call); isCall {
+							e.libNilThroughParam(na, ruleNil, name, why, c, call, fn)
+						}
+						continue
+					}
+					construct := "deref:" + name[strings.LastIndex(name, ".")+1:] + "()"
+					pos := e.p.pos(instrPos(at))
+					ok, how := na.provedNonNil(c, at.Block(), at)
+					if !ok {
+						if reason, isEx := reviewedException(ruleNil, shortFn(fn), construct); isEx {
+							e.r.Exception(ruleNil, shortFn(fn), construct, pos, reason)
+							continue
+						}
+					}
+					e.r.Decide(ok, ruleNil, shortFn(fn), construct, pos, how,
+						"the result of "+name+" is used without a nil test: "+why, e.p.callPath(fn))
+				}
+			}
+		}
+	}
+}
+
+// libNilThroughParam: a possibly-nil library result is passed to a repository function without a test;
+// the parameter's dereferences in the callee must then be guarded there.
+func (e *e3) libNilThroughParam(na *nilAnalysis, rule, name, why string, res *ssa.Call, call *ssa.Call, caller *ssa.Function) {
+	callee := call.Call.StaticCallee()
+	if callee == nil || !e.p.isRepoFunc(callee) || len(callee.Blocks) == 0 {
+		return
+	}
+	if ok, _ := na.provedNonNil(res, call.Block(), call); ok {
+		return
+	}
+	for i, a := range call.Call.Args {
+		if a != ssa.Value(res) || i >= len(callee.Params) {
+			continue
+		}
+		prm := callee.Params[i]
+		seen := map[*ssa.BasicBlock]bool{}
+		for _, b := range callee.Blocks {
+			for _, in := range b.Instrs {
+				deref := false
+				switch x := in.(type) {
+				case *ssa.FieldAddr:
+					deref = x.X == ssa.Value(prm)
+				case *ssa.UnOp:
+					deref = x.Op == token.MUL && x.X == ssa.Value(prm)
+				}
+				if !deref || seen[b] {
+					continue
+				}
+				seen[b] = true
+				construct := "deref:param(" + prm.Name() + ")<-" + name[strings.LastIndex(name, ".")+1:] + "()"
+				ok, how := na.provedNonNil(prm, b, in)
+				if !ok {
+					if reason, isEx := reviewedException(rule, shortFn(callee), construct); isEx {
+						e.r.Exception(rule, shortFn(callee), construct, e.p.pos(instrPos(in)), reason)
+						continue
+					}
+				}
+				e.r.Decide(ok, rule, shortFn(callee), construct, e.p.pos(instrPos(in)), how,
+					"the result of "+name+" ("+why+") is passed from "+shortFn(caller)+" without a nil test and dereferenced here", e.p.callPath(callee))
+			}
+		}
+	}
+}
+
+// guardedDifference: v is a - b (plus non-negative constants) and a dominating condition states a > b or a >= b.
+func guardedDifference(v ssa.Value, at *ssa.BasicBlock) bool {
+	v = stripConv(v)
+	for {
+		bo, ok := v.(*ssa.BinOp)
+		if !ok {
+			return false
+		}
+		if bo.Op == token.ADD {
+			if k, isC := constInt(bo.Y); isC && k >= 0 {
+				v = stripConv(bo.X)
+				continue
+			}
+			return false
+		}
+		if bo.Op != token.SUB {
+			return false
+		}
+		for _, c := range factsOf(at.Parent()).dominatingConds(at) {
+			cb, ok := c.V.(*ssa.BinOp)
+			if !ok {
+				continue
+			}
+			op := cb.Op
+			x, y := cb.X, cb.Y
+			if !c.Pos {
+				switch op {
+				case token.LSS:
+					op = token.GEQ
+				case token.LEQ:
+					op = token.GTR
+				case token.GTR:
+					op = token.LEQ
+				case token.GEQ:
+					op = token.LSS
+				default:
+					continue
+				}
+			}
+			if (op == token.GTR || op == token.GEQ) && sameValue(stripConv(x), stripConv(bo.X)) && sameValue(stripConv(y), stripConv(bo.Y)) {
+				return true
+			}
+			if (op == token.LSS || op == token.LEQ) && sameValue(stripConv(y), stripConv(bo.X)) && sameValue(stripConv(x), stripConv(bo.Y)) {
+				return true
+			}
+		}
+		return false
+	}
+}
+
+// requestTargetValidated: on every path to block at, target was parsed successfully by url.ParseRequestURI
+// and tested to contain no space (the two ways in which httptest.NewRequest's request line can be malformed).
+func requestTargetValidated(target ssa.Value, at *ssa.BasicBlock) bool {
+	parsed, noSpace := false, false
+	for _, c := range factsOf(at.Parent()).dominatingConds(at) {
+		switch x := c.V.(type) {
+		case *ssa.BinOp:
+			if x.Op != token.EQL && x.Op != token.NEQ || !isNilConst(x.Y) {
+				continue
+			}
+			ex, ok := x.X.(*ssa.Extract)
+			if !ok {
+				continue
+			}
+			call, ok := ex.Tuple.(*ssa.Call)
+			if !ok || call.Call.StaticCallee() == nil || call.Call.StaticCallee().String() != "net/url.ParseRequestURI" {
+				continue
+			}
+			if !sameValue(call.Call.Args[0], target) {
+				continue
+			}
+			if (x.Op == token.EQL && c.Pos) || (x.Op == token.NEQ && !c.Pos) {
+				parsed = true
+			}
+		case *ssa.Call:
+			if x.Call.StaticCallee() != nil && x.Call.StaticCallee().String() == "strings.Contains" && !c.Pos {
+				if s, ok := constString(x.Call.Args[1]); ok && s == " " && sameValue(x.Call.Args[0], target) {
+					noSpace = true
+				}
+			}
+		}
+	}
+	return parsed && noSpace
+}
+
